@@ -121,6 +121,22 @@ func ClassifyErr(call *ssa.Call) ErrUse {
 	if mustFlowToReturn(ev) {
 		return ErrUse{Class: ErrReturned}
 	}
+	// the error travels through a result variable in memory (named results of a function with deferred calls,
+	// single-exit forms): walk the paths after the call assuming it failed
+	if ReturnsError(call.Parent().Signature) {
+		okAll, n := true, 0
+		reach := ReachableFrom(call.Block(), nil)
+		exhausted := WalkReturnsAfter(call, []ssa.Value{ev}, func(ret *ssa.Return, nilness int, resolved ssa.Value) bool {
+			n++
+			if nilness != 1 && ClassifyReturn(ret) != RetError && !(resolved != nil && !IsNilConst(resolved) && NonNilAtFrom(resolved, ret, reach)) {
+				okAll = false
+			}
+			return okAll
+		})
+		if okAll && n > 0 && !exhausted {
+			return ErrUse{Class: ErrTested, Detail: "through a result variable: every return on the paths after a failing call carries a non-nil error"}
+		}
+	}
 	return ErrUse{Class: ErrOther, Detail: "error is neither nil-tested nor returned on every path from the call (it can be overwritten or dropped)"}
 }
 
@@ -268,7 +284,31 @@ func pathEscape(t NilTest, fn *ssa.Function, ev ssa.Value) (esc ssa.Instruction,
 // returns false to stop.  Taking a back edge forgets everything learnt (values are redefined per iteration).  The
 // values in nonNil are known to be non-nil from the start.  It reports whether the step budget was exhausted.
 func WalkReturns(from *ssa.If, onTrue bool, nonNil []ssa.Value, visit func(ret *ssa.Return, nilness int, resolved ssa.Value) bool) (exhausted bool) {
-	fn := from.Parent()
+	return walkReturns(from, onTrue, nil, nil, nonNil, nil, visit)
+}
+
+// WalkReturnsAfter is WalkReturns for the paths that continue after instruction `at` (typically a call whose error
+// result is assumed non-nil): the rest of its block is executed first.
+func WalkReturnsAfter(at ssa.Instruction, nonNil []ssa.Value, visit func(ret *ssa.Return, nilness int, resolved ssa.Value) bool) (exhausted bool) {
+	return walkReturns(nil, false, at, nil, nonNil, nil, visit)
+}
+
+// WalkReturnsWithin is WalkReturnsAfter that does not continue into the blocks of stop (e.g. a loop header: the
+// paths that go round are not followed).
+func WalkReturnsWithin(start *ssa.BasicBlock, stop map[*ssa.BasicBlock]bool, visit func(ret *ssa.Return, nilness int, resolved ssa.Value) bool) (exhausted bool) {
+	return walkReturns(nil, false, nil, start, nil, stop, visit)
+}
+
+func walkReturns(from *ssa.If, onTrue bool, after ssa.Instruction, startBlock *ssa.BasicBlock, nonNil []ssa.Value, stop map[*ssa.BasicBlock]bool, visit func(ret *ssa.Return, nilness int, resolved ssa.Value) bool) (exhausted bool) {
+	var fn *ssa.Function
+	switch {
+	case from != nil:
+		fn = from.Parent()
+	case after != nil:
+		fn = after.Parent()
+	default:
+		fn = startBlock.Parent()
+	}
 	hasErr := ReturnsError(fn.Signature)
 	type state struct {
 		env    map[*ssa.Phi]ssa.Value
@@ -296,6 +336,13 @@ func WalkReturns(from *ssa.If, onTrue bool, nonNil []ssa.Value, visit func(ret *
 						okP = false
 					}
 				case *ssa.UnOp, *ssa.DebugRef:
+				case *ssa.MakeClosure:
+					// captured by a (deferred) literal: fine if the literal only reads it, or only ever replaces a
+					// non-nil error by another non-nil one (wraps it) - non-nilness survives either way
+					lit, _ := x.Fn.(*ssa.Function)
+					if lit == nil || !capturedKeepsNonNil(lit, x, al) {
+						okP = false
+					}
 				default:
 					okP = false
 				}
@@ -420,8 +467,14 @@ func WalkReturns(from *ssa.If, onTrue bool, nonNil []ssa.Value, visit func(ret *
 	}
 	steps := 0
 	seen := map[string]bool{}
+	startAfter := after
 	var walk func(b, pred *ssa.BasicBlock, s *state, onPath map[*ssa.BasicBlock]bool) ssa.Instruction
 	walk = func(b, pred *ssa.BasicBlock, s *state, onPath map[*ssa.BasicBlock]bool) ssa.Instruction {
+		skipUntil := startAfter // only the very first block starts in its middle
+		startAfter = nil
+		if skipUntil == nil && stop[b] && !(startBlock == b && steps == 0) {
+			return nil
+		}
 		steps++
 		if steps > 20000 {
 			exhausted = true
@@ -430,13 +483,17 @@ func WalkReturns(from *ssa.If, onTrue bool, nonNil []ssa.Value, visit func(ret *
 		if onPath[b] {
 			// next iteration: nothing learnt so far is valid any more
 			s = newState()
-			key := fmt.Sprintf("loop:%d<-%d", b.Index, pred.Index)
+			pi := -1
+			if pred != nil {
+				pi = pred.Index
+			}
+			key := fmt.Sprintf("loop:%d<-%d", b.Index, pi)
 			if seen[key] {
 				return nil
 			}
 			seen[key] = true
 			onPath = map[*ssa.BasicBlock]bool{}
-		} else {
+		} else if skipUntil == nil {
 			// phis are evaluated simultaneously on the way in
 			upd := map[*ssa.Phi]ssa.Value{}
 			for _, in := range b.Instrs {
@@ -457,6 +514,12 @@ func WalkReturns(from *ssa.If, onTrue bool, nonNil []ssa.Value, visit func(ret *
 		onPath[b] = true
 		defer delete(onPath, b)
 		for _, in := range b.Instrs {
+			if skipUntil != nil {
+				if in == skipUntil {
+					skipUntil = nil
+				}
+				continue
+			}
 			switch x := in.(type) {
 			case *ssa.Store:
 				if al, ok := x.Addr.(*ssa.Alloc); ok && private[al] {
@@ -512,6 +575,14 @@ func WalkReturns(from *ssa.If, onTrue bool, nonNil []ssa.Value, visit func(ret *
 	for _, v := range nonNil {
 		s0.nonNil[v] = true
 	}
+	if from == nil && after == nil {
+		walk(startBlock, nil, s0, map[*ssa.BasicBlock]bool{})
+		return exhausted
+	}
+	if from == nil {
+		walk(after.Block(), nil, s0, map[*ssa.BasicBlock]bool{})
+		return exhausted
+	}
 	// whatever the condition tests is decided on this edge
 	learn(s0, from.Cond, onTrue)
 	start := from.Block().Succs[1]
@@ -520,4 +591,36 @@ func WalkReturns(from *ssa.If, onTrue bool, nonNil []ssa.Value, visit func(ret *
 	}
 	walk(start, from.Block(), s0, map[*ssa.BasicBlock]bool{})
 	return exhausted
+}
+
+// capturedKeepsNonNil: the literal lit, which captures the variable al through closure mc, never turns a non-nil
+// error held in it into nil: it does not store to it at all, or stores only a wrapper of what it holds / a fresh error.
+func capturedKeepsNonNil(lit *ssa.Function, mc *ssa.MakeClosure, al *ssa.Alloc) bool {
+	for i, b := range mc.Bindings {
+		if b != ssa.Value(al) || i >= len(lit.FreeVars) {
+			continue
+		}
+		fv := lit.FreeVars[i]
+		for _, rf := range *fv.Referrers() {
+			switch x := rf.(type) {
+			case *ssa.UnOp, *ssa.DebugRef:
+			case *ssa.Store:
+				if x.Addr != ssa.Value(fv) {
+					return false
+				}
+				if IsErrCtor(x.Val) {
+					continue
+				}
+				in, isWrap := IsErrWrap(x.Val)
+				ld, isLoad := in.(*ssa.UnOp)
+				if !isWrap || !isLoad || ld.X != ssa.Value(fv) {
+					return false
+				}
+				// the wrapper keeps nil nil and non-nil non-nil
+			default:
+				return false
+			}
+		}
+	}
+	return true
 }
